@@ -20,6 +20,7 @@ type Case struct {
 	Files []GenFile
 	Flags []string // e.g. -row .name
 	Args  []string // file arguments, possibly label=path or repeated, or "-" (standard input)
+	WantUnits []string // "wide" cases: the units that must survive the -filter (nil = not judged)
 	Stdin string   // name of the generated file whose content is fed to standard input for "-"
 	Tags  map[string]bool
 }
@@ -65,6 +66,14 @@ func fnum(v float64) string { return fmt.Sprintf("%v", v) }
 // genCase builds one random case. Small shapes are preferred so that the quick tier
 // covers many flag combinations; shapes grow with `big`.
 func genCase(r *hx.Rand, big bool) *Case {
+	switch r.Intn(30) {
+	case 0:
+		return genFixed2(r)
+	case 1:
+		return genWide(r)
+	case 2:
+		return genManyResidues(r)
+	}
 	c := &Case{}
 	nfiles := 1 + r.Intn(4)
 	if !big && r.Chance(1, 2) {
@@ -540,7 +549,163 @@ func corpusCases() []*Case {
 		// a row with a zero and two magnitudes of different prefixes: the row scale is that of the smallest non-zero
 		mk(nil, "BenchmarkA 1 0 B/op\nBenchmarkB 1 3221225472 B/op\n", "BenchmarkA 1 1536 B/op\nBenchmarkB 1 0 B/op\n", "BenchmarkA 1 3221225472 B/op\nBenchmarkB 1 1536 B/op\n"),
 		mk(nil, "BenchmarkA 1 -1536 B/op\n", "BenchmarkA 1 2 B/op\n", "BenchmarkA 1 3221225472 B/op\n"),
+		// a cell fed by more than 8 distinct residues, the second varying field arriving last
+		func() *Case {
+			var sb strings.Builder
+			sb.WriteString("goos: linux\n")
+			for b := 0; b < 8; b++ {
+				fmt.Fprintf(&sb, "commit: k%02d\n\nBenchmarkFam/size=1 1 %d ns/op\n", b, 100+b)
+				if b == 7 {
+					sb.WriteString("BenchmarkFam/size=2 1 207 ns/op\n")
+				}
+				sb.WriteString("\n")
+			}
+			return mk([]string{"-table", "goos", "-row", ".name"}, sb.String())
+		}(),
+		func() *Case {
+			var sb strings.Builder
+			sb.WriteString("cpu: A\n\n")
+			for sz := 1; sz <= 12; sz++ {
+				fmt.Fprintf(&sb, "BenchmarkFam/size=%d 1 %d ns/op\n", sz, 100+sz)
+			}
+			sb.WriteString("\ncpu: B\n\nBenchmarkFam/size=3 1 150 ns/op\n")
+			return mk([]string{"-table", "goos", "-row", ".name"}, sb.String())
+		}(),
+		// two fixed orders in one run: both lists filter
+		mk([]string{"-row", "/a@(y x)", "-col", "/b@(2 1)"}, func() string {
+			var sb strings.Builder
+			for _, a := range []string{"x", "y", "z"} {
+				for _, b := range []string{"1", "2", "3"} {
+					fmt.Fprintf(&sb, "BenchmarkM/a=%s/b=%s 1 %d ns/op\n", a, b, 10+len(sb.String())%7)
+				}
+			}
+			return sb.String()
+		}()),
+		// exactly 32 value/unit pairs on a line, filtered by unit
+		func() *Case {
+			var sb strings.Builder
+			sb.WriteString("BenchmarkW 1")
+			for u := 0; u < 32; u++ {
+				fmt.Fprintf(&sb, " %d m%02d", 1+u, u)
+			}
+			c := mk([]string{"-filter", ".unit:m05"}, sb.String()+"\n")
+			c.WantUnits = []string{"m05"}
+			return c
+		}(),
 		// exact assumption
 		mk([]string{"-col", "note"}, "Unit text-bytes assume=exact\nnote: before\n\nBenchmarkSize 1 100 text-bytes\nBenchmarkN 1 100 text-bytes\nBenchmarkN 1 101 text-bytes\n\nnote: after\n\nBenchmarkSize 1 105 text-bytes\nBenchmarkN 1 101 text-bytes\n"),
 	}
+}
+
+// genFixed2: TWO (or three) flags with fixed value orders in one run — each list is also a
+// filter — with and without an explicit -filter.
+func genFixed2(r *hx.Rand) *Case {
+	c := &Case{}
+	c.tag("fixed2")
+	var sb strings.Builder
+	sb.WriteString("goos: linux\n\n")
+	for _, f := range []string{"json", "gob", "xml"} {
+		for _, s := range []string{"1k", "2k", "10"} {
+			for _, n := range []string{"Encode", "Decode"} {
+				for i := 0; i < 1+r.Intn(3); i++ {
+					fmt.Fprintf(&sb, "Benchmark%s/format=%s/size=%s 1 %d ns/op\n", n, f, s, 10+r.Intn(90))
+				}
+			}
+		}
+	}
+	c.Files = []GenFile{{"a.txt", sb.String()}}
+	c.Args = []string{"a.txt"}
+	c.Flags = append(c.Flags, hx.Pick(r, [][]string{
+		{"-row", "/format@(gob json)", "-col", "/size@(2k 1k)"},
+		{"-table", "/format@(json)", "-row", ".name", "-col", "/size@(1k 2k)"},
+		{"-row", "/format@(gob json)", "-col", "/size", "-ignore", ".name@(Encode)"},
+		{"-row", "/format@(xml)", "-col", "/size@(10 1k)", "-table", ".name@(Decode Encode)"},
+		{"-col", "/format@(json gob)", "-row", ".name@(Encode)", "-ignore", "/size@(1k)"},
+		{"-table", "/size@(2k)", "-row", "/format@(gob xml json)", "-col", ".name"}})...)
+	if r.Chance(1, 2) {
+		c.Flags = append([]string{"-filter", hx.Pick(r, []string{"goos:linux", "-.name:Hash", "/size:(1k OR 2k OR 10)"})}, c.Flags...)
+	}
+	return c
+}
+
+// genWide: result lines with exactly 31, 32, 33, 64 or 96 value/unit pairs under -filter .unit terms.
+func genWide(r *hx.Rand) *Case {
+	c := &Case{}
+	c.tag("wide")
+	n := hx.Pick(r, []int{31, 32, 33, 64, 96, 32, 64})
+	var sb strings.Builder
+	for line := 0; line < 1+r.Intn(3); line++ {
+		sb.WriteString("BenchmarkW 1")
+		for u := 0; u < n; u++ {
+			fmt.Fprintf(&sb, " %d m%02d", 1+u+line, u)
+		}
+		sb.WriteString("\n")
+	}
+	c.Files = []GenFile{{"a.txt", sb.String()}}
+	c.Args = []string{"a.txt"}
+	all := func(pred func(int) bool) []string {
+		out := []string{}
+		for u := 0; u < n; u++ {
+			if pred(u) {
+				out = append(out, fmt.Sprintf("m%02d", u))
+			}
+		}
+		return out
+	}
+	k := r.Intn(n)
+	last := n - 1
+	switch r.Intn(5) {
+	case 0:
+		c.Flags = []string{"-filter", fmt.Sprintf(".unit:m%02d", k)}
+		c.WantUnits = all(func(u int) bool { return u == k })
+	case 1:
+		c.Flags = []string{"-filter", fmt.Sprintf("-.unit:m%02d", k)}
+		c.WantUnits = all(func(u int) bool { return u != k })
+	case 2:
+		c.Flags = []string{"-filter", fmt.Sprintf(".unit:(m00 OR m%02d)", last)}
+		c.WantUnits = all(func(u int) bool { return u == 0 || u == last })
+	case 3:
+		c.Flags = []string{"-filter", fmt.Sprintf(".name:W AND -.unit:m%02d", last)}
+		c.WantUnits = all(func(u int) bool { return u != last })
+	default:
+		c.Flags = []string{"-filter", "*"}
+		c.WantUnits = all(func(u int) bool { return true })
+	}
+	return c
+}
+
+// genManyResidues: cells fed by MORE THAN 8 distinct residue keys, the field that varies last
+// arriving late (eight or more `commit:` blocks, the last with two sizes; a 12-size family under
+// cpu: A then one result under cpu: B), with -row .name style projections.
+func genManyResidues(r *hx.Rand) *Case {
+	c := &Case{}
+	c.tag("manyres")
+	var sb strings.Builder
+	sb.WriteString("goos: linux\n")
+	if r.Chance(1, 2) {
+		nb := hx.Pick(r, []int{8, 8, 9, 10, 12})
+		for b := 0; b < nb; b++ {
+			fmt.Fprintf(&sb, "commit: k%02d\n\n", b)
+			lines := []string{fmt.Sprintf("BenchmarkFam/size=1 1 %d ns/op", 100+b)}
+			if b == nb-1 || r.Chance(1, 10) {
+				lines = append(lines, fmt.Sprintf("BenchmarkFam/size=2 1 %d ns/op", 200+b))
+			}
+			if r.Bool() {
+				lines[0], lines[len(lines)-1] = lines[len(lines)-1], lines[0]
+			}
+			sb.WriteString(strings.Join(lines, "\n") + "\n\n")
+		}
+		c.Flags = hx.Pick(r, [][]string{{"-table", "goos", "-row", ".name"}, {"-row", ".name", "-table", "goos", "-ignore", ".file"}, {"-table", "goos", "-row", ".name", "-col", ".file"}})
+	} else {
+		sb.WriteString("cpu: A\n\n")
+		for sz := 1; sz <= 12; sz++ {
+			fmt.Fprintf(&sb, "BenchmarkFam/size=%d 1 %d ns/op\n", sz, 100+sz)
+		}
+		sb.WriteString("\ncpu: B\n\n")
+		fmt.Fprintf(&sb, "BenchmarkFam/size=%d 1 150 ns/op\n", 1+r.Intn(12))
+		c.Flags = hx.Pick(r, [][]string{{"-table", "goos", "-row", ".name"}, {"-row", ".name", "-table", ""}})
+	}
+	c.Files = []GenFile{{"a.txt", sb.String()}}
+	c.Args = []string{"a.txt"}
+	return c
 }
